@@ -557,6 +557,11 @@ def corrupt_datagram(dg: bytes, spec: dict, body_plain: bytes, extra_len: int) -
             return dg
         coded = L.zero_encode_noncanonical(body_plain, 1 if kind == "rezero_wrap" else 0)
         return dg[:6] + coded
+    if kind == "zero_bomb":
+        # legal continuation form (00 00 ... n): k < 48 stays under the codec's expansion limit, more goes past it
+        if not dg[0] & L.ZEROCODED:
+            return dg
+        return dg + b"\x00" * spec["k"] + b"\x05"
     raise ValueError(kind)
 
 
@@ -637,6 +642,8 @@ class Driver:
                 dg = dg2
                 self.world.corrupted.add(dg)
                 self.res.fault("corrupt:" + st["corrupt"]["kind"])
+                if st["corrupt"]["kind"] == "zero_bomb" and st["corrupt"]["k"] >= 49:
+                    self.res.probe("zero_expansion_over_codec_limit")
         endpoint.sent.setdefault(flow, []).append({
             "pid": pid, "flags": flags, "body": body, "acks": acks, "name": name,
             "datagram_resent": L.build_datagram(flags | L.RESENT, pid, len(extra), body, ()),
